@@ -564,4 +564,7 @@ def CubicBez.from_parameters (a b c d : Vec2 K) : CubicBez K :=
 def CubicBez.subdivide_3 (self : CubicBez K) : CubicBez K × CubicBez K × CubicBez K :=
   (let (p0, p1, p2, p3) := (self.p0.to_vec2, self.p1.to_vec2, self.p2.to_vec2, self.p3.to_vec2); (let one_27th := (srecip (27 : K)); (let mid1 := ((((((8 : K) * p0) + ((12 : K) * p1)) + ((6 : K) * p2)) + p3) * one_27th).to_point; (let deriv1 := (((p3 + ((3 : K) * p2)) - ((4 : K) * p0)) * one_27th); (let mid2 := ((((p0 + ((6 : K) * p1)) + ((12 : K) * p2)) + ((8 : K) * p3)) * one_27th).to_point; (let deriv2 := (((((4 : K) * p3) - ((3 : K) * p1)) - p0) * one_27th); (let left := (CubicBez.new self.p0 ((((2 : K) * p0) + p1).div_exact (3 : K)).to_point (mid1 - deriv1) mid1); (let mid := (CubicBez.new mid1 (mid1 + deriv1) (mid2 - deriv2) mid2); (let right := (CubicBez.new mid2 (mid2 + deriv2) ((p2 + ((2 : K) * p3)).div_exact (3 : K)).to_point self.p3); (left, mid, right))))))))))
 
+def momentIntegrals (c : CubicBez K) : K × K × K :=
+  (let (x0, y0) := (c.p0.x, c.p0.y); (let (x1, y1) := ((c.p1.x - x0), (c.p1.y - y0)); (let (x2, y2) := ((c.p2.x - x0), (c.p2.y - y0)); (let (x3, y3) := ((c.p3.x - x0), (c.p3.y - y0)); (let r0 := ((3 : K) * x1); (let r1 := ((3 : K) * y1); (let r2 := (x2 * y3); (let r3 := (x3 * y2); (let r4 := (x3 * y3); (let r5 := ((27 : K) * y1); (let r6 := (x1 * x2); (let r7 := ((27 : K) * y2); (let r8 := ((45 : K) * r2); (let r9 := ((18 : K) * x3); (let r10 := (x1 * y1); (let r11 := ((30 : K) * x1); (let r12 := ((45 : K) * x3); (let r13 := (x2 * y1); (let r14 := ((45 : K) * r3); (let r15 := (spowi x1 2); (let r16 := ((18 : K) * y3); (let r17 := (spowi x2 2); (let r18 := ((45 : K) * y3); (let r19 := (spowi x3 2); (let r20 := ((30 : K) * y1); (let r21 := (spowi y2 2); (let r22 := (spowi y3 2); (let r23 := (spowi y1 2); (let a := ((((((((-r0) * y2) - (r0 * y3)) + (r1 * x2)) + (r1 * x3)) - ((6 : K) * r2)) + ((6 : K) * r3)) + ((10 : K) * r4)); (let lift := (x3 * y0); (let area := ((a * (Scalar.ofRat (1/20 : Rat) : K)) + lift); (let x := (((((((((((((((r10 * r9) - (r11 * r4)) + (r12 * r13)) + (r14 * x2)) - (r15 * r16)) - (r15 * r7)) - (r17 * r18)) + (r17 * r5)) + (r19 * r20)) + (((105 : K) * r19) * y2)) + (((280 : K) * r19) * y3)) - (((105 : K) * r2) * x3)) + (r5 * r6)) - (r6 * r7)) - (r8 * x1)); (let y := ((((((((((((((((-r10) * r16) - (r10 * r7)) - (r11 * r22)) + (r12 * r21)) + (r13 * r7)) + (r14 * y1)) - ((r18 * x1) * y2)) + (r20 * r4)) - (((27 : K) * r21) * x1)) - (((105 : K) * r22) * x2)) + (((140 : K) * r22) * x3)) + (r23 * r9)) + (((27 : K) * r23) * x2)) + (((105 : K) * r3) * y3)) - (r8 * y2)); (let mx := (((x * ((1 : K) / (840 : K))) + (x0 * area)) + (((Scalar.ofRat (1/2 : Rat) : K) * x3) * lift)); (let my := (((y * ((1 : K) / (420 : K))) + ((y0 * a) * (Scalar.ofRat (1/10 : Rat) : K))) + (y0 * lift)); (area, mx, my))))))))))))))))))))))))))))))))))))
+
 end Kurbo
